@@ -186,8 +186,7 @@ PROPERTIES["C12"] = {
                  + [H(k, "parser.scanner", POS_FUNCS, v, tiers=T, timeout={"thorough": 3000}) for k, v in SCAN_UNIT_T.items()]
                  + [H("c12_skip_to_next_token_top_4", "parser.scanner", POS_FUNCS, "texts 0..4 over " + WSA + ", top-level", tiers=T, timeout={"thorough": 3000}),
                     H("c12_skip_to_next_token_block_4", "parser.scanner", POS_FUNCS, "texts 0..4 over " + WSA + ", block context", tiers=T, timeout={"thorough": 3000}),
-                    H("c12_block_scalar_content_line_counts_chars_1_2", "parser.scanner", ["Scanner::scan_block_scalar_content_line", "StrInput::raw_read_non_breakz_ch"], "every line of a 1-byte and a 2-byte character + break or end of input, arbitrary start mark"),
-                    H("c12_block_scalar_content_line_counts_chars_3_4", "parser.scanner", ["Scanner::scan_block_scalar_content_line", "StrInput::raw_read_non_breakz_ch"], "every line of a 3-byte and a 4-byte character + break or end of input, arbitrary start mark"),
+
                     H("c10_skip_ws_to_eol", "parser.input_str", ["StrInput::skip_ws_to_eol"], UTF8 % 2 + " (count is a character count)"),
                     H("c10_skip_while_non_breakz", "parser.input_str", ["StrInput::skip_while_non_breakz"], UTF8 % 5 + " (count is a character count)"),
                     H("c10_fetch_while_is_alpha", "parser.input_str", ["StrInput::fetch_while_is_alpha"], UTF8 % 4 + " (count is a character count)")],
@@ -197,18 +196,18 @@ PROPERTIES["C12"] = {
 PROPERTIES["C14"] = {
     "level": "model_checking",
     "level_text": "Bounded model checking of the break-handling units: skip_linebreak/skip_break/read_break consume LF, CR LF and lone CR as exactly one "
-                  "break (one line, column 0, reported as a line feed) for every following text within the bound; differential check of the whitespace "
-                  "units: for EVERY CR-free text X within the bound and both substitutions (LF->CRLF, LF->CR) the unit ends with the same outcome at the "
-                  "same line/column before the same character and with the same simple-key state.",
+                  "break (one line, column 0, reported as a line feed) for every following text within the bound; an escaped line break in a double-quoted "
+                  "scalar consumes the backslash and exactly one break of any style; differential check of the whitespace units on 2-character texts whose "
+                  "line-feed POSITIONS are fixed per harness (11 shape/substitution/context combinations) and whose other characters are symbolic: the "
+                  "unit ends with the same outcome at the same line/column before the same character and with the same simple-key state for LF vs CR LF / CR.",
     "level_note": "Scalar-scanning functions (break normalisation inside plain/quoted/block scalars) are outside the claim (not finishing under Kani); "
                   "whole-document statement follows only by composition (argued).",
     "harnesses": [H("c12_skip_linebreak", "parser.scanner", POS_FUNCS, SCAN_UNIT_HARNESSES["c12_skip_linebreak"]),
                   H("c12_skip_break_read_break", "parser.scanner", POS_FUNCS, SCAN_UNIT_HARNESSES["c12_skip_break_read_break"]),
                   ] + [H("c14_escaped_line_break_" + st, "parser.scanner", ["Scanner::consume_flow_scalar_non_whitespace_chars", "Scanner::skip_linebreak", "Scanner::skip_non_blank"], "backslash + " + st.upper() + " + one of {b, sp, quote, LF}, arbitrary start mark") for st in ["lf", "crlf", "cr"]]
-                 + [H(k, "parser.scanner", POS_FUNCS, "every CR-free text 0..2 over {sp, tab, LF, '#', 'a', ':'} x {LF->CRLF, LF->CR}")
-                    for k in ["c14_skip_to_next_token_top_2", "c14_skip_to_next_token_block_2", "c14_skip_yaml_whitespace_top_2", "c14_skip_yaml_whitespace_flow_2"]]
-                 + [H(k, "parser.scanner", POS_FUNCS, "every CR-free text 0..3 over {sp, tab, LF, '#', 'a', ':'} x {LF->CRLF, LF->CR}", tiers=T, timeout={"thorough": 3400})
-                    for k in ["c14_skip_to_next_token_top_3", "c14_skip_to_next_token_block_3", "c14_skip_yaml_whitespace_top_3", "c14_skip_yaml_whitespace_flow_3"]],
+                 + [H("c14_" + k, "parser.scanner", POS_FUNCS, "text of 2 characters with line feeds at fixed positions (" + k + "), other characters symbolic over {sp, tab, '#', 'a', ':'}, LF -> " + ("CR LF" if "crlf" in k else "CR"))
+                    for k in ["next_token_lf_o_crlf_top", "next_token_lf_o_cr_block", "next_token_o_lf_crlf_block", "next_token_o_lf_cr_top", "next_token_lf_lf_crlf_top", "next_token_lf_lf_cr_flow",
+                              "yaml_ws_lf_o_crlf_top", "yaml_ws_lf_o_cr_top", "yaml_ws_o_lf_crlf_flow", "yaml_ws_o_lf_cr_top", "yaml_ws_lf_lf_cr_top"]],
     "assumptions": ["units are run from constructed contexts (top level / indent 2 / flow level 1)"],
     "outside": "break normalisation inside scalars (scan_flow_scalar, scan_plain_scalar, scan_block_scalar), directives, whole documents",
 }
@@ -262,10 +261,10 @@ DOCSTART = {
 }
 def DS(name):
     return H(name, "lm.parser", ["Parser::document_start", "Parser::explicit_document_start", "Parser::parser_process_directives"],
-             "token template " + DOCSTART[name] + " x keep_tags on/off x handle table of an earlier document",
+             "token template " + DOCSTART[name] + " x keep_tags on/off, with a handle (!a! -> old:) left by an earlier document",
              stubs=[LM_STUB, INJ])
 PROPERTIES["C02"]["harnesses"] += [DS(n) for n in ["c16_docstart_stream_end", "c16_docstart_skip_doc_ends", "c16_docstart_implicit_scalar", "c16_docstart_explicit"]]
-RESOLVE = {"c16_resolve_no_directives": "no directive", "c16_resolve_all_directives": "!a! !b! !! ! all bound", "c16_resolve_named_only": "!a! !b! bound, anchor before tag",
+RESOLVE = {"c16_resolve_no_directives": "no directive", "c16_resolve_named_only": "!a! !b! bound, anchor before tag",
            "c16_resolve_secondary_and_primary": "!! and ! rebound", "c16_resolve_only_b": "only !b! bound"}
 PROPERTIES["C16"] = {
     "level": "model_checking",
@@ -273,7 +272,7 @@ PROPERTIES["C16"] = {
                   "over injected token templates: for 14 directive prologue shapes of up to 3 directives (handles fixed per template), keep_tags on/off and "
                   "the handle table left by an earlier document, the table in force after '---' equals the reference (all %TAG of the "
                   "document together, duplicates rejected, repeated %YAML rejected, directives without '---' rejected); for every tag spelling "
-                  "(!!s !a!s !b!s !c!s !s !<v> !) under 5 handle tables the reported tag is prefix-of-handle + suffix, undeclared named handles are errors.",
+                  "(!!s !a!s !b!s !c!s !s !<v> !) under 4 handle tables the reported tag is prefix-of-handle + suffix, undeclared named handles are errors.",
     "level_note": "Token KIND sequences are concrete templates (a symbolic kind sequence makes the directive loops explode); payloads, options and tables are "
                   "symbolic. Tag scanning (scan_tag*, percent-decoding in scan_uri_escapes) builds heap strings and is outside the claim. " + LM_STUB,
     "prepare": ["gen_parser"],
@@ -310,9 +309,10 @@ PROPERTIES["C17"] = {
     "level_note": "The push interface (Parser::load, load_document, load_node recursion, per-document anchor clearing) is outside the claim: it did not finish "
                   "under Kani. Longer call histories follow by induction on the step (argued). " + LM_STUB,
     "prepare": ["gen_parser"],
-    "harnesses": [H("c17_peek_next_block_node", "lm.parser", PEEK_FUNCS, "state BlockNode, stack DocumentEnd + 2 arbitrary entries, all token sequences <= 2", stubs=[LM_STUB, INJ]),
-                  H("c17_peek_next_flow_sequence_entry", "lm.parser", PEEK_FUNCS, "state FlowSequenceEntry, stack + 2 entries, all token sequences <= 3", stubs=[LM_STUB, INJ]),
-                  H("c17_peek_next_block_mapping_value", "lm.parser", PEEK_FUNCS, "state BlockMappingValue, stack DocumentEnd, all token sequences <= 3", stubs=[LM_STUB, INJ]),
+    "harnesses": [H("c17_peek_next_" + t, "lm.parser", PEEK_FUNCS, "token template " + t + ", names and stack entries (2, 10 kinds) symbolic", stubs=[LM_STUB, INJ])
+                  for t in ["scalar", "anchored_scalar", "alias", "flow_sequence_start", "flow_entry_scalar", "block_end"]] + [
+                  H("c17_peek_next_block_node", "lm.parser", PEEK_FUNCS, "state BlockNode, stack DocumentEnd + 2 arbitrary entries, all token sequences <= 2", stubs=[LM_STUB, INJ], tiers=T, timeout={"thorough": 3400}),
+                  H("c17_peek_next_flow_sequence_entry", "lm.parser", PEEK_FUNCS, "state FlowSequenceEntry, stack + 2 entries, all token sequences <= 2", stubs=[LM_STUB, INJ], tiers=T, timeout={"thorough": 3400}),
                   ] + [H("c17_fuse_" + h, "lm.parser", PEEK_FUNCS, "token template [StreamEnd], call history " + h.replace("_", ", "), stubs=[LM_STUB, INJ])
                        for h in ["peek_next_next_peek", "next_next_peek_next", "peek_peek_next_next", "next_peek_next_peek"]],
     "assumptions": [LM_STUB, INJ],
@@ -358,7 +358,7 @@ PROPERTIES["C09"] = {
                   H("c09_unquoted_strings_resolve_as_strings_4", "saphyr.emitter", ["saphyr::emitter::need_quotes", "Scalar::parse_from_cow", "loader::parse_f64"], "every string 0..4 over the 24-symbol alphabet", stubs=[F64_STUB]),
                   H("c09_unquoted_strings_resolve_as_strings_5", "saphyr.emitter", ["saphyr::emitter::need_quotes", "Scalar::parse_from_cow", "loader::parse_f64"], "every string 0..5 over the 24-symbol alphabet", stubs=[F64_STUB], tiers=T),
                   H("c09_escape_str_roundtrip_1", "saphyr.emitter", ["saphyr::emitter::escape_str"], "every character below U+0800 (all ASCII incl. controls, 2-byte characters)"),
-                  H("c09_escape_str_roundtrip_2", "saphyr.emitter", ["saphyr::emitter::escape_str"], "every valid UTF-8 string of 0..2 characters below U+0800"),
+                  H("c09_escape_str_roundtrip_2", "saphyr.emitter", ["saphyr::emitter::escape_str"], "every valid UTF-8 string of 0..2 characters below U+0800", tiers=T, timeout={"thorough": 3000}),
                   H("c09_escape_str_roundtrip_3", "saphyr.emitter", ["saphyr::emitter::escape_str"], "every valid UTF-8 string of 0..3 characters below U+0800", tiers=T, timeout={"thorough": 3000})],
     "assumptions": [F64_STUB],
     "outside": "collection layout, literal blocks, numbers, plain strings containing indicator characters in position, idempotence of a second emit",
@@ -394,19 +394,18 @@ PROPERTIES["C19"] = {
     "level_text": "Bounded model checking, on the real code and through the public API, of the parts of the statement that do not need a hash map: owned and "
                   "borrowed scalars resolve identically for EVERY text of up to 2 chars x 5 styles x {no tag, !!int, !!str}; parse_representation and "
                   "parse_representation_recursive leave every already-resolved node (integer, string, null, alias) untouched and BadValue as BadValue, "
-                  "resolve a Representation to the value the eager loader computes, and keep a sequence while resolving its items; MarkedYaml equality "
+                  "resolve a Representation to the value the eager loader computes; MarkedYaml equality "
                   "and hashing depend on the data only (hash-trace equality under arbitrary spans); Scalar::into_owned/as_scalar round trip (C08 harness).",
     "level_note": "Structural identity of the four node types for whole documents, and deferred-vs-eager equality for mappings, go through LinkedHashMap / the "
                   "loader and are outside the claim (not finishing under Kani). f64::from_str is a contract stub.",
     "harnesses": [H("c19_owned_and_borrowed_resolve_identically", "ext.c19", ["ScalarOwned::parse_from_cow_and_metadata", "Scalar::parse_from_cow_and_metadata", "Scalar::into_owned"], "texts 0..2 over {1 0 x . - ~ t n a e} x 5 styles x 3 tag choices", stubs=[F64_STUB]),
                   ] + [H("c19_parse_representation_" + n, "ext.c19", ["Yaml::parse_representation", "Yaml::parse_representation_recursive", "Yaml::take"], "node variant " + n + " x texts 0..2 x 5 styles x any i64", stubs=[F64_STUB])
                        for n in ["integer", "string", "alias", "badvalue", "null_recursive", "repr", "repr_recursive"]] + [
-                  H("c19_parse_representation_sequence", "ext.c19", ["Yaml::parse_representation_recursive"], "sequence [Representation(text 0..2, double-quoted), Value(Integer(any))]", stubs=[F64_STUB]),
                   ] + [H("c19_marked_eq_hash_" + n, "ext.c19", ["<MarkedYaml as PartialEq>::eq", "<MarkedYaml as Hash>::hash", "<YamlData as Hash>::hash (derived)"], "data variant " + n + " x arbitrary payloads x arbitrary spans")
                        for n in ["integer", "boolean", "alias", "string"]] + [
                   H("c08_owned_3", "ext.c08", ["Scalar::into_owned", "ScalarOwned::as_scalar"], "texts 0..3; into_owned/as_scalar round trip", stubs=[F64_STUB], tiers=T)],
     "assumptions": [F64_STUB],
-    "outside": "four node types on whole documents; early_parse(false) + resolve == eager for documents with mappings; MarkedYamlOwned/YamlOwned variants of parse_representation (same macro body)",
+    "outside": "four node types on whole documents; early_parse(false) + resolve == eager for documents with sequences or mappings (a two-item sequence harness did not finish in 1200 s: recursive resolve over heap-stored nodes); MarkedYamlOwned/YamlOwned variants of parse_representation (same macro body)",
 }
 
 C01_STEPS_Q = ["c02_step_block_node_d0", "c02_step_block_mapping_value_d0", "c02_step_flow_sequence_entry_mapping_key_d0", "c02_step_indentless_sequence_entry_d0"]
@@ -415,8 +414,7 @@ PROPERTIES["C01"] = {
     "level": "model_checking",
     "level_text": "Bounded model checking of the panic sites and loops named by the property, unit by unit, on the real code: every required StrInput method "
                   "after every history of 3 skip/read/peek calls on every valid UTF-8 buffer (no panic, never inside a character); the StrInput fast paths "
-                  "(fetch_while_is_alpha slicing, next_can_be_plain_scalar byte indexing) on every buffer; block-scalar indentation skipping through the "
-                  "16-slot BufferedInput for indentations 13..17 around the buffer size x every following text <= 3 (no ring overflow, no peek beyond the look-ahead); the flow-level counter "
+                  "(fetch_while_is_alpha slicing, next_can_be_plain_scalar byte indexing) on every buffer; the flow-level counter "
                   "from every level (error at 255, never wraps); whitespace/comment skipping on all texts <= 2-3 (terminates within the unwinding bound); "
                   "and ONE parser step from an arbitrary well-formed configuration over all token sequences for every state (no pop_state/fetch_token/"
                   "unreachable panic; by induction no panic for token streams of any length - see C02). Unwinding assertions give termination within bounds.",
@@ -427,8 +425,6 @@ PROPERTIES["C01"] = {
                   H("c10_fetch_while_is_alpha", "parser.input_str", ["StrInput::fetch_while_is_alpha"], UTF8 % 4),
                   H("c10_next_can_be_plain_scalar", "parser.input_str", ["StrInput::next_can_be_plain_scalar"], UTF8 % 4),
                   H("c01_increase_flow_level", "parser.scanner", ["Scanner::increase_flow_level"], "every flow_level 0..=255"),
-                  ] + [H("c01_block_scalar_indent_buffered_" + v, "parser.scanner", ["Scanner::skip_block_scalar_indent", "BufferedInput::lookahead", "BufferedInput::peek", "BufferedInput::peek_nth", "Scanner::read_break", "Scanner::skip_break"],
-                         "indentation / space run " + v + " (around the 16-slot buffer) x every tail of 0..3 chars over {sp, LF, CR, a}") for v in ["13", "14", "15", "16", "17", "15_short"]] + [
                   H("c12_skip_to_next_token_top_2", "parser.scanner", ["Scanner::skip_to_next_token"], SCAN_UNIT_HARNESSES["c12_skip_to_next_token_top_2"])]
                  + [H(n, "lm.parser", PARSER_FUNCS, "parser step from an arbitrary configuration, see C02", stubs=[LM_STUB, INJ], timeout={"quick": 900, "thorough": 1800}) for n in C01_STEPS_Q]
                  + [H(n, "lm.parser", PARSER_FUNCS, "parser step from an arbitrary configuration, see C02", stubs=[LM_STUB, INJ], tiers=T, timeout={"thorough": 1800}) for n in C01_STEPS_T],
@@ -437,7 +433,7 @@ PROPERTIES["C01"] = {
 }
 # C02 quick = document-level + depth-2 variants; depth-0 variants are run in C02 thorough (and partly in C01 quick)
 for h in PROPERTIES["C02"]["harnesses"]:
-    if h["name"].endswith("_d0"):
+    if h["name"].endswith("_d0") or "_first_" in h["name"]:
         h["tiers"] = T
 
 
